@@ -339,6 +339,32 @@ def make_machine(cell, ctx, holder):
         def addsub(self, opname, operand):
             self.sim.inplace(opname, operand)
 
+        @rule(opname=st.sampled_from(("+=", "-=")), mode=st.sampled_from(("long", "az", "both")), other=gen.vec(("moderate",)))
+        def addsub_coinciding(self, opname, mode, other):
+            """an operand chosen so that the Cartesian numbers of the result coincide with the numbers the vector stores in
+            another coordinate type (new z == stored eta / theta, new (x, y) == stored (rho, phi)): the update still has to
+            happen"""
+            sim = self.sim
+            v = getattr(sim, "v", None)
+            if v is None or getattr(sim, "dead", False) or sim.mp:
+                return
+            sysv = obs.system_of(v)
+            try:
+                c = [float(v.x), float(v.y)] + ([float(v.z)] if d >= 3 else []) + ([float(v.t)] if d == 4 else [])
+            except Exception:  # noqa: BLE001
+                return
+            if not all(math.isfinite(x) for x in c):
+                return
+            sgn = 1.0 if opname == "+=" else -1.0
+            w = [float(x) for x in other["c"][:d]]
+            if mode in ("long", "both") and d >= 3 and sysv[1] != "z":
+                w[2] = sgn * (float(tuple(v.longitudinal.elements)[0]) - c[2])
+            if mode in ("az", "both") and sysv[0] == "rhophi":
+                a0, a1 = (float(x) for x in tuple(v.azimuthal.elements))
+                w[0], w[1] = sgn * (a0 - c[0]), sgn * (a1 - c[1])
+            cart = w + [0.0] * (4 - len(w))
+            sim.inplace(opname, ["vec", d, R.sysname(opcheck.CART[d]), cart, False])
+
         @rule(opname=st.sampled_from(("*=", "/=")), value=st.one_of(gen.factor(), st.sampled_from((2.0, -1.0, 0.5))))
         def muldiv(self, opname, value):
             self.sim.inplace(opname, ["scalar", value])
